@@ -337,6 +337,17 @@ func runC18(w *world.World, c caseC18, rec *kit.Recorder) error {
 				rec.Label("admin", "update refused (foreign signer)")
 			}
 		}
+		// an update on a branch that is then discarded (a later message of the same transaction
+		// failed, a simulation, an out-of-gas) must leave the limit in force untouched
+		if s.Admin != nil {
+			discarded, _ := m.Ctx.CacheContext()
+			other := kit.Admin{Kind: "update_params", MaxPassthrough: m.Model.MaxPassthrough/2 + 13}
+			msg, _ := kit.BuildAdmin(other)
+			if r := w.Tx(discarded, msg); r.OK() {
+				rec.Label("admin", "update on a discarded branch")
+				at += fmt.Sprintf(" and a discarded update to %d", other.MaxPassthrough)
+			}
+		}
 		if err := probe("after " + at); err != nil {
 			return err
 		}
